@@ -62,6 +62,11 @@ func (e *Engine) strOf(st *State, arr, off, n T) T {
 	e.declareUF("str_of", "(declare-fun str_of ((Array Int Int) Int Int) Int)")
 	r := app(SInt, "str_of", arr, off, n)
 	if e.quant > 0 {
+		// under a quantifier no per-term facts are made: length and content come from two global axioms
+		e.slen(r)
+		e.sarr(r)
+		e.declareUF("str_of!len", "(assert (forall ((a (Array Int Int)) (o Int) (n Int)) (! (=> (>= n 0) (= (slen (str_of a o n)) n)) :pattern ((str_of a o n)))))")
+		e.declareUF("str_of!byte", "(assert (forall ((a (Array Int Int)) (o Int) (n Int) (k Int)) (! (=> (and (<= 0 k) (< k n)) (= (select (sarr (str_of a o n)) k) (select a (+ o k)))) :pattern ((select (sarr (str_of a o n)) k)))))")
 		return r
 	}
 	// the same bytes denote the same string: reuse the identity (and its content facts) created on this path
@@ -1367,6 +1372,20 @@ func (e *Engine) evalSpecHelper(st *State, call *ast.CallExpr, name string) Valu
 			return BoolV{Ge(x.ref, base)}
 		}
 		e.fail(call, "fresh of %T", v)
+	case "loopfresh":
+		if len(e.loopBounds) == 0 {
+			e.fail(call, "loopfresh outside a loop contract")
+		}
+		base := e.loopBounds[len(e.loopBounds)-1]
+		switch x := e.eval(st, call.Args[0]).(type) {
+		case SliceV:
+			return BoolV{Ge(x.blk, base)}
+		case RefV:
+			return BoolV{Ge(x.t, base)}
+		case IfaceV:
+			return BoolV{Ge(x.ref, base)}
+		}
+		e.fail(call, "loopfresh needs a slice, pointer or interface")
 	case "sameSlice":
 		a, aok := e.eval(st, call.Args[0]).(SliceV)
 		b, bok := e.eval(st, call.Args[1]).(SliceV)
